@@ -1008,6 +1008,46 @@ func (c *specCtx) call(n *SCall) (Val, types.Type) {
 			c.fail("rpos needs an io.Reader value")
 		}
 		return scalar(tb.Select(c.ghostArr("rpos", SArrI), readerKey(tb, v))), untypedInt
+	case "unmarshalled":
+		// unmarshalled(y): y.UnmarshalBinary has been called (ghost flag kept by the library model)
+		v, _ := arg(0)
+		if len(v.T) != 2 {
+			c.fail("unmarshalled needs an interface value")
+		}
+		return scalar(tb.Select(c.ghostArr("unmarshalled", SArrB), tb.App("umkey", SInt, v.T[0], v.T[1]))), boolType
+	case "marshalLen":
+		// marshalLen(x): the length of the byte slice x.MarshalBinary() returns (uninterpreted function of the value, as in the library model)
+		v, _ := arg(0)
+		if len(v.T) != 2 {
+			c.fail("marshalLen needs an interface value")
+		}
+		return scalar(tb.App("marshallen", SInt, v.T[0], v.T[1])), untypedInt
+	case "unixnano":
+		// unixnano(t): the value of t.UnixNano() (uninterpreted function of the time value)
+		v, T := arg(0)
+		return scalar(c.e.unixNano(c.st, v, T)), untypedInt
+	case "wpos":
+		// wpos(w): number of bytes written to writer w so far (ghost)
+		v, _ := arg(0)
+		if len(v.T) != 2 {
+			c.fail("wpos needs an io.Writer value")
+		}
+		return scalar(tb.Select(c.ghostArr("wpos", SArrI), writerKey(tb, v))), untypedInt
+	case "wroteAt":
+		// wroteAt(w, i): the i-th byte of the output of writer w (ghost)
+		v, _ := arg(0)
+		i, _ := arg(1)
+		if len(v.T) != 2 {
+			c.fail("wroteAt needs an io.Writer value")
+		}
+		return scalar(tb.Select(tb.Select(c.ghostArr("wbytes", SArr2I), writerKey(tb, v)), i.T[0])), untypedInt
+	case "rfail":
+		// rfail(r): some read on r returned an error so far (ghost)
+		v, _ := arg(0)
+		if len(v.T) != 2 {
+			c.fail("rfail needs an io.Reader value")
+		}
+		return scalar(tb.Select(c.ghostArr("rfail", SArrB), readerKey(tb, v))), boolType
 	case "streamAt":
 		// streamAt(r, i): the i-th byte of the stream behind reader r (uninterpreted content)
 		v, _ := arg(0)
